@@ -9,6 +9,7 @@ package main
 // H2ClientTrace.tla judges the recording.
 
 import (
+	"math/rand"
 	"bytes"
 	"encoding/json"
 	"fmt"
@@ -33,6 +34,8 @@ type cBody struct {
 	EOF   int    `json:"eof"`
 	// CloseMs > 0: the body stream is an io.Closer whose Close takes this long (a file, a pipe from another goroutine)
 	CloseMs int `json:"closems"`
+	// ReadMs > 0: every Read after the first takes this long (a body produced by another goroutine, a slow disk)
+	ReadMs int `json:"readms"`
 }
 
 type cStep struct {
@@ -67,6 +70,10 @@ type cStep struct {
 	BadHP   bool       `json:"badhpack"`
 	RawFields bool     `json:"rawfields"` // resp: send Fields exactly (no :status added)
 	NoWait    bool     `json:"nowait"`    // call: do not wait for quiescence (the next step waits for something specific)
+	Writers   int      `json:"writers"`   // storm: goroutines calling Conn.Write at once
+	Each      int      `json:"each"`      // storm: calls per goroutine
+	prep      bool                // storm: prepare the call, do not Write
+	fire      func()              // storm: the prepared Write
 	Gate      string   `json:"gate"`      // call: hold the write loop at this hook point until an "ungate" step
 }
 
@@ -145,6 +152,7 @@ type cliRun struct {
 	gatePoint   atomic.Value // string
 	gateHit     chan struct{}
 	closeBegan  chan struct{} // a slow body stream's Close has started
+	readBegan   chan struct{} // a slow body stream's Read has started
 	gateRelease chan struct{}
 	gated       atomic.Bool
 	cutMode     bool
@@ -171,6 +179,8 @@ func (r *cliRun) emit(e sEvent) {
 	r.evMu.Unlock()
 }
 
+var spinSink atomic.Int64
+
 var cliHookMu sync.Mutex
 var cliRuns sync.Map // *http2.Conn -> *cliRun
 var cliCtxRuns sync.Map // *http2.Ctx -> *cliRun
@@ -189,7 +199,7 @@ func init() {
 }
 
 func runCliScenario(sc cScenario) (evs []sEvent) {
-	r := &cliRun{closeBegan: make(chan struct{}, 8), gateHit: make(chan struct{}, 1), gateRelease: make(chan struct{}, 1), sc: sc, reqs: map[int]*cReq{}, sidReq: map[uint32]int{}, recvBody: map[uint32]int{}, sentBody: map[uint32]int{}}
+	r := &cliRun{closeBegan: make(chan struct{}, 8), readBegan: make(chan struct{}, 1), gateHit: make(chan struct{}, 1), gateRelease: make(chan struct{}, 1), sc: sc, reqs: map[int]*cReq{}, sidReq: map[uint32]int{}, recvBody: map[uint32]int{}, sentBody: map[uint32]int{}}
 	r.unit = sc.Cfg.Unit
 	if r.unit <= 0 {
 		r.unit = 1
@@ -409,7 +419,7 @@ func (r *cliRun) quiesce() bool {
 	var last cqsnap
 	stable := 0
 	spins := 0
-	var stuckSince time.Time
+	var stuckSince, stillSince time.Time
 	for {
 		q := r.snap()
 		ok := q.quiet(r.readerGone()) && q == last
@@ -431,6 +441,20 @@ func (r *cliRun) quiesce() bool {
 			}
 		} else if q != last {
 			stuckSince = time.Time{}
+		}
+		if !ok && q == last && !r.toB.hold && !q.gated && !q.wlX && !q.rlX {
+			// Nothing has moved for a full second although the books do not balance (a hand-off counted by its
+			// producer was never counted by the write loop): the connection IS at rest, and whatever is stalled
+			// in this state is stalled for good.  Judge it as it stands.
+			if stillSince.IsZero() {
+				stillSince = time.Now()
+			} else if time.Since(stillSince) > time.Second {
+				r.emit(sEvent{"k": "note", "what": "at rest with unbalanced books"})
+				r.logQ(q, false)
+				return true
+			}
+		} else {
+			stillSince = time.Time{}
 		}
 		if ok {
 			stable++
@@ -644,6 +668,9 @@ type cliBodyReader struct {
 	n, off int
 	chunk  int
 	eof    int
+	readMs int
+	reads  int
+	began  chan struct{} // signalled when a slow Read starts
 }
 
 // cliBodyCloser is a body stream that is also an io.Closer; closing it takes a while.
@@ -668,6 +695,14 @@ func (p *cliBodyCloser) Close() error {
 func (p *cliBodyReader) Read(b []byte) (int, error) {
 	if p.off >= p.n {
 		return 0, io.EOF
+	}
+	p.reads++
+	if p.readMs > 0 && p.reads > 1 {
+		select {
+		case p.began <- struct{}{}:
+		default:
+		}
+		time.Sleep(time.Duration(p.readMs) * time.Millisecond)
 	}
 	k := len(b)
 	if p.chunk > 0 && k > p.chunk {
@@ -710,7 +745,7 @@ func (r *cliRun) stepCall(st *cStep) {
 		case "buf":
 			req.SetBodyRaw(patBytes(3, uint32(st.Req), 0, n))
 		case "stream", "streamcl":
-			var rd io.Reader = &cliBodyReader{req: st.Req, n: n, chunk: st.Body.Chunk, eof: st.Body.EOF}
+			var rd io.Reader = &cliBodyReader{req: st.Req, n: n, chunk: st.Body.Chunk, eof: st.Body.EOF, readMs: st.Body.ReadMs, began: r.readBegan}
 			if st.Body.CloseMs > 0 {
 				rd = &cliBodyCloser{cliBodyReader: cliBodyReader{req: st.Req, n: n, chunk: st.Body.Chunk, eof: st.Body.EOF}, closeMs: st.Body.CloseMs, began: r.closeBegan,
 					note: func(w string) { r.emit(sEvent{"k": "note", "what": w, "sid": st.Req}) }}
@@ -747,7 +782,12 @@ func (r *cliRun) stepCall(st *cStep) {
 	r.waiters.Add(1)
 	// Write only queues the request (or resolves it when the connection is done); calling it here, not
 	// on the waiter goroutine, means the request is in c.in before quiescence is looked for.
-	r.conn.Write(ctx)
+	if st.prep {
+		// storm: everything is ready; the caller fires the Write itself, in a tight loop with the others
+		st.fire = func() { r.conn.Write(ctx) }
+	} else {
+		r.conn.Write(ctx)
+	}
 	go func() {
 		err := <-ctx.Err
 		ev := sEvent{"k": "resolve", "req": st.Req, "ok": err == nil, "err": "", "errclass": "", "status": 0, "fields": [][][]int{}, "blen": 0, "bodyok": true, "retryable": false}
@@ -973,6 +1013,9 @@ func (r *cliRun) step(st *cStep) {
 		d.Ty, d.Sid, d.Len, d.Inc = 8, int(sid), 4, int(st.Inc)
 		r.emitSend(sEvent{"k": "send", "f": d, "req": st.Req})
 		r.flush(nil)
+		if st.NoWait {
+			return
+		}
 		r.quiesce()
 	case "settings":
 		d := newFdesc()
@@ -1145,6 +1188,48 @@ func (r *cliRun) step(st *cStep) {
 	case "wait":
 		time.Sleep(time.Duration(st.Ms) * time.Millisecond)
 		r.quiesce()
+	case "storm":
+		// callers on several goroutines hand requests to the connection, as fast as they can, while the socket under
+		// it starts to fail: the write loop dies between two of their calls.  Every one of the requests is resolved.
+		calls := make([][]*cStep, st.Writers)
+		for w := range calls {
+			for k := 0; k < st.Each; k++ {
+				c := &cStep{Op: "call", Req: st.Req + w*st.Each + k, NoWait: true, prep: true}
+				r.stepCall(c)
+				calls[w] = append(calls[w], c)
+			}
+		}
+		var wg sync.WaitGroup
+		hold := make(chan struct{})
+		for w := range calls {
+			wg.Add(1)
+			go func(cs []*cStep) {
+				defer wg.Done()
+				<-hold
+				rng := rand.New(rand.NewSource(int64(len(cs))*7919 + int64(cs[0].Req)))
+				for _, c := range cs {
+					// arrivals spread out, slower than the write loop drains: its queue is empty most of the time
+					for i, n := 0, rng.Intn(st.N+1); i < n; i++ {
+						spinSink.Add(1)
+					}
+					c.fire()
+				}
+			}(calls[w])
+		}
+		time.Sleep(time.Millisecond)
+		tot, _, _, _, _ := r.toB.stats()
+		r.toB.setFailAt(tot)
+		r.emit(sEvent{"k": "note", "what": "failwrites"})
+		close(hold)
+		wg.Wait()
+		r.quiesce()
+	case "awaitread":
+		// until the write loop is inside a slow Read of a caller's body stream (at most 2 s)
+		select {
+		case <-r.readBegan:
+		case <-time.After(2 * time.Second):
+			r.emit(sEvent{"k": "note", "what": "slow-read-not-seen"})
+		}
 	case "awaitclose":
 		// until the library has begun to close a slow body stream (at most 2 s); the close is still going on afterwards
 		select {
